@@ -111,6 +111,7 @@ def driver_ops(models, weights_bits):
     ops.append("build")
     ops.append("vocab")
     ops.append("stuck")
+    ops.append("stream")
     return ops
 
 
